@@ -16,6 +16,19 @@ from .models import compare, norm_range
 AnsiString, AnsiStr, AnsiSetting = lib.AnsiString, lib.AnsiStr, lib.AnsiSetting
 
 
+def _may_be_rejected(ctx):
+    """Inputs the statements do not pin down - a negative width (format() has none), a replace count below -1 - may be
+    rejected with a documented error type; when accepted they are judged like any other call."""
+    op = ctx.op
+    if ctx.exc is None or not isinstance(ctx.exc, (TypeError, ValueError)) or _SELF_CHECK_MSG in str(ctx.exc):
+        return False
+    if ctx.kind == 'pad' and isinstance(op.get('w'), int) and op['w'] < 0:
+        return True
+    if ctx.kind == 'replace' and isinstance(op.get('count'), int) and op['count'] < -1:
+        return True
+    return False
+
+
 def _own_preamble(ctx, name):
     """An operation the relation belongs to must complete."""
     if ctx.timeout:
@@ -219,13 +232,21 @@ class C05(Oracle):
                 # library documents that a str operand is taken as AnsiString(operand) - either the operand is
                 # parsed on its own or it is appended literally; anything else (e.g. its sequences acting on a
                 # neighbouring operand) is wrong under both readings
-                lit = [getattr(x, 'literal', None) or x for x in oo]
-                exp_lit = models.m_concat(lit) if k == 'join' else models.m_concat([ctx.pre] + lit)
-                if compare(ctx.post, exp) is not None:
-                    _expect(ctx.post, exp_lit, k + '.plain_operand_with_escapes')
+                # (each such operand on its own: the first operand of join goes through the constructor)
+                choices = [[x] if getattr(x, 'literal', None) is None else [x, x.literal] for x in oo]
+                ok = False
+                for combo in itertools.product(*choices):
+                    e2 = models.m_concat(list(combo)) if k == 'join' else models.m_concat([ctx.pre] + list(combo))
+                    if compare(ctx.post, e2) is None:
+                        ok = True
+                        break
+                if not ok:
+                    lit = [getattr(x, 'literal', None) or x for x in oo]
+                    _expect(ctx.post, models.m_concat(lit) if k == 'join' else models.m_concat([ctx.pre] + lit),
+                            k + '.plain_operand_with_escapes')
             else:
                 _expect(ctx.post, exp, k)
-            if k == 'join' and len(ctx.op['xs']) >= 2:
+            if k == 'join' and len(ctx.op['xs']) >= 2 and not any(getattr(x, 'literal', None) is not None for x in oo):
                 # the operand objects as resolved before the call (the result may since have been
                 # stored over one of their slots)
                 vals = [ctx.operands[repr(sorted(d.items()))][0] for d in ctx.op['xs']]
@@ -332,7 +353,7 @@ class C06(Oracle):
         if ctx.kind == 'apply' and ctx.recv is not None:
             try:
                 ok = '\x1b' not in ctx.pre.text and all(codes.valid_g(c) for cell in ctx.pre.cells for c in cell)
-                ctx.pre_cps = True if ok else None
+                ctx.pre_cps = change_point_positions(ctx.recv) if ok else None
             except T.Undefined:
                 ctx.pre_cps = None
 
@@ -391,6 +412,10 @@ class C06(Oracle):
                 cps = getattr(ctx, 'pre_cps', None)
                 if i > a and not begun:
                     if cps is None or ctx.pre_objs is None:
+                        begun = True
+                    elif i in cps or pre.cells[i] != pre.cells[i - 1]:
+                        # a sequence is written before this character, or the reported settings differ: something
+                        # may begin here (whether it does is not observable by value) - stop demanding
                         begun = True
                     else:
                         prev, cur = ctx.pre_objs[i - 1], ctx.pre_objs[i]
@@ -524,6 +549,9 @@ class C11(Oracle):
         op, pre = ctx.op, ctx.pre
         if k == 'replace' and op['old'] == '':
             return   # left to C09
+        if _may_be_rejected(ctx):
+            ctx.world.count('skipped:count_below_minus_one_rejected')
+            return
         _own_preamble(ctx, k)
         post = ctx.post
         w = ctx.world
@@ -609,6 +637,9 @@ class C12(Oracle):
             return
         op, pre = ctx.op, ctx.pre
         if k == 'pad':
+            if _may_be_rejected(ctx):
+                ctx.world.count('skipped:negative_width_rejected')
+                return
             _own_preamble(ctx, 'pad')
             ext = True if (pre.kind == A or op['how'] == 'zfill') else op['ext']
             fill = '0' if op['how'] == 'zfill' else op['fill']
@@ -1017,7 +1048,7 @@ class C08(Oracle):
                                                  for d in engine_operand_descs(ctx.op)) else
                                 ('receiver' if i == ctx.recv_slot else 'unrelated'))
         # non-in-place methods and every AnsiStr method leave the receiver unchanged
-        if ctx.recv is not None and not ctx.ip and ctx.pre is not None:
+        if ctx.recv is not None and not ctx.ip and ctx.pre is not None and not getattr(ctx, 'bad_succeeded_in_place', False):
             if ctx.recv_post is None:
                 raise Fail('receiver_became_unobservable', op=ctx.op, before=ctx.pre.to_json(),
                            exc='%s: %s' % (type(ctx.recv_post_exc).__name__, ctx.recv_post_exc))
@@ -1155,6 +1186,8 @@ class C09(Oracle):
                     now = [observe(ctx.recv + 'Z').key(), observe(ctx.recv + AnsiString('Z', '34')).key()]
                     require(now == eqb, 'failed_call_leaves_appended_text_unchanged', op=ctx.op,
                             before=repr(eqb[0][1:3]), after=repr(now[0][1:3]))
+            elif _may_be_rejected(ctx):
+                w.count('optional_input_rejected')
             else:
                 # an ordinary operation with documented argument types and values raised
                 raise Fail('successful_history_then_operation_raises', op=ctx.op,
